@@ -233,7 +233,7 @@ def corr_janus(c, R, exe):
         lines.append(janus_line(order, sp, sv, G, every, segs, parts))
         recs, _ = real_janus_records(R, order, sp, sv, G, every, segs, parts)
         expect.append(recs)
-        meta.append(dict(order=order, N=n, scale_pos=sp, scale_vel=sv, dt=dt, segs=segs, G=G, parts=parts))
+        meta.append(dict(order=order, N=n, scale_pos=sp, scale_vel=sv, dt=dt, segs=segs, G=G, parts=parts, every=every))
         c.count(("corr-janus", order, n, sp, sv, dt < 0), n=sum(s[1] for s in segs))
     # a few out-of-range cases: the model must say `err`, the C code is not compared (UB)
     nerr = 0
@@ -270,10 +270,79 @@ def corr_janus(c, R, exe):
                                  what=("p_int" if j < 6 * mt["N"] else "double") + " " + COMP[j % 6] if j >= 0 else "length")
                 break
     c.cov["janus_records_compared"] = ncmp
-    c.cov["janus_disagreements"] = ndis
+    c.cov["janus_bitwise_disagreements"] = ndis
     c.sample({"janus_line": lines[0][:300], "first_record": expect[0][0][:200]})
+    c.cov["janus_tie"] = "bitwise"
     if ndis:
-        c.corr_break("JANUS model and implementation differ on %d of %d runs; first: order %s N %s" % (ndis, len(lines), first.get("order"), first.get("N")), first)
+        # The property (reversal) is bitwise, the tie need not be: a refactoring that re-associates an
+        # increment changes single grid units.  Compare single steps from the implementation's own
+        # states within a grid tolerance before declaring the model broken.
+        bad = janus_tolerant(c, exe, expect, meta)
+        if bad is None:
+            c.cov["janus_tie"] = "single steps agree within the grid tolerance, not bitwise (%d of %d runs differ bitwise; first: %s)" % (
+                ndis, len(lines), json.dumps({k: first.get(k) for k in ("order", "N", "record", "what", "model", "impl")}, default=str))
+            c.log("JANUS tie: not bitwise, but single steps agree within the grid tolerance")
+        else:
+            c.corr_break("JANUS model and implementation differ on %d of %d runs (bitwise) and single steps differ beyond the grid tolerance; first: order %s N %s"
+                         % (ndis, len(lines), bad.get("order"), bad.get("N")), dict(first or {}, single_step=bad))
+
+
+def stages_of(order):
+    return {2: 1, 4: 5, 6: 9, 8: 15, 10: 33}.get(order, 33)
+
+
+def janus_tolerant(c, exe, expect, meta):
+    """one model step from every recorded implementation state (runs recorded after every step);
+    None if all agree within the tolerance, else the first offending case"""
+    lines, want, info = [], [], []
+    for recs, mt in zip(expect, meta):
+        if mt["every"] != 1:
+            continue
+        n = mt["N"]
+        dts = [dt for dt, k in mt["segs"] for _ in range(k)]
+        for j in range(len(recs) - 1):
+            t = recs[j].split()[:6 * n]
+            ms = [d2h(p[0]) for p in mt["parts"]]
+            toks = ["janus1", str(mt["order"]), d2h(mt["scale_pos"]), d2h(mt["scale_vel"]), d2h(mt["G"]), d2h(0.0), d2h(dts[j + 1]), str(n)]
+            for i in range(n):
+                toks += [ms[i]] + t[6 * i:6 * i + 6]
+            lines.append(" ".join(toks))
+            want.append(recs[j + 1].split())
+            info.append((mt, j, t))
+    got = run_driver(exe, lines)
+    worst = 0.0
+    sgn = lambda h: (int(h, 16) ^ (1 << 63)) - (1 << 63)
+    for g, w, (mt, j, prev) in zip(got, want, info):
+        n = mt["N"]
+        p0 = [sgn(x) for x in prev]
+        gi = g.split()
+        if len(gi) != 6 * n:
+            return dict(order=mt["order"], N=n, step=j, why="model: " + g[:60])
+        a = [sgn(x) for x in gi]
+        b = [sgn(x) for x in w[:6 * n]]
+        S = stages_of(mt["order"])
+        for cls in (0, 3):
+            idx = [6 * i + cls + k for i in range(n) for k in range(3)]
+            mx = max(abs(b[i]) for i in idx)
+            # grid units lost to re-association, plus the sensitivity of the force to them (close pairs):
+            # a fraction 1e-9 of the largest displacement of the step — a wrong coefficient, index or
+            # sign changes the displacement by O(1)
+            tol = 8 * (2 * S + 1) * max(1.0, mx * 2.0 ** -52) + 1e-9 * max(abs(b[i] - p0[i]) for i in idx)
+            dmax = max(abs(a[i] - b[i]) for i in idx)
+            worst = max(worst, dmax / tol)
+            if dmax > tol:
+                i = max(idx, key=lambda i: abs(a[i] - b[i]))
+                return dict(order=mt["order"], N=n, step=j, what=COMP[i % 6], model=a[i], impl=b[i], tolerance=tol,
+                            scale_pos=mt["scale_pos"], scale_vel=mt["scale_vel"], dt=mt["dt"])
+        # the doubles must be the grid values times the scale (to_double), to 4 ulp
+        for i in range(6 * n):
+            sc = mt["scale_pos"] if i % 6 < 3 else mt["scale_vel"]
+            dv, ref = h2d(w[6 * n + i]), float(b[i]) * sc
+            if not abs(dv - ref) <= 4 * 2.3e-16 * abs(ref):
+                return dict(order=mt["order"], N=n, step=j, what="to_double " + COMP[i % 6], impl=dv, grid_times_scale=ref)
+    c.cov["janus_single_steps_compared_with_tolerance"] = len(lines)
+    c.cov["janus_single_step_worst_fraction_of_tolerance"] = float("%.3g" % worst)
+    return None
 
 
 def corr_leapfrog(c, R, exe):
@@ -299,8 +368,38 @@ def corr_leapfrog(c, R, exe):
             first = first or dict(mt, model=g[:200], impl=" | ".join(e)[:200])
         ncmp += len(e)
     c.cov["leapfrog_records_compared"] = ncmp
-    if ndis or len(got) != len(lines):
-        c.corr_break("LEAPFROG model and implementation differ on %d of %d runs" % (ndis, len(lines)), first)
+    c.cov["leapfrog_tie"] = "bitwise"
+    if len(got) != len(lines):
+        c.corr_break("drv_c10 returned %d lines for %d leapfrog ops" % (len(got), len(lines)))
+    elif ndis:
+        # "to rounding error" part of the property: tolerate re-association (64 N ulp per single step)
+        l2, w2, i2 = [], [], []
+        for e, mt in zip(expect, meta):
+            dts = [mt["dt"]] * mt["nf"] + [-mt["dt"]] * mt["nf"]
+            for j in range(len(e) - 1):
+                st = [h2d(t) for t in e[j].split()]
+                parts = [[mt["parts"][i][0]] + st[6 * i:6 * i + 6] for i in range(mt["N"])]
+                l2.append(leapfrog_line(mt["G"], 1, [(dts[j], 1)], parts))
+                w2.append([h2d(t) for t in e[j + 1].split()])
+                i2.append((mt, j))
+        g2 = run_driver(exe, l2)
+        bad = None
+        for g, w, (mt, j) in zip(g2, w2, i2):
+            n = mt["N"]
+            gv = [h2d(t) for t in g.split("|")[-1].split()]
+            if len(gv) != 6 * n:
+                bad = dict(N=n, step=j, why=g[:80]); break
+            for cls in (0, 3):
+                idx = [6 * i + cls + k for i in range(n) for k in range(3)]
+                sc = max(abs(w[i]) for i in idx) or 1.0
+                if any(not abs(gv[i] - w[i]) <= 64 * n * 2.3e-16 * sc for i in idx):
+                    bad = dict(N=n, step=j, dt=mt["dt"], model=[gv[i] for i in idx][:6], impl=[w[i] for i in idx][:6]); break
+            if bad:
+                break
+        if bad is None:
+            c.cov["leapfrog_tie"] = "single steps agree to 64 N ulp, not bitwise (%d of %d runs differ bitwise)" % (ndis, len(lines))
+        else:
+            c.corr_break("LEAPFROG model and implementation differ on %d of %d runs, single steps beyond 64 N ulp" % (ndis, len(lines)), dict(first or {}, single_step=bad))
 
 
 def corr_laws(c, exe):
